@@ -23,7 +23,7 @@ ASSUMPTIONS = [
     "plasmids are well-formed (exactly one site per strand); when several error conditions hold at once any of the matching errors is accepted",
     "a product is accepted only when no error condition holds",
 ]
-FLOORS = {"c03_judged": 5000, "c03_unused_checked": 100}
+FLOORS = {"c03_judged": 5000, "c03_unused_checked": 100, "c03_runs_with_plasmids_at_other_origins": 1000, "c03_runs_with_shared_record_ids": 1000}
 MUST_REACH = ["AssemblyManager._generate_modules_map", "AssemblyManager._generate_assembly"]
 BUDGET_S = {"quick": 900, "thorough": 7200}
 EXHAUSTIVE = {"quick": False, "thorough": False}
@@ -113,8 +113,27 @@ def _run(ctx, enzyme, v, mods, order=None):
         ctx.count("c03_typed_part_classes_runs")
     # record-wide annotations of any shape: the outcome is a function of the overhang graph, not of the plasmids' metadata
     ann = lambda *k: gen.annotation_variety("c03", enzyme, *k)
-    vec = V(CircularRecord(Seq(_plasmid(enzyme, "V", v[0], v[1])), "v", annotations=ann("v", v[0], v[1], len(mods))))
-    ents = [M(CircularRecord(Seq(_plasmid(enzyme, "M", a, b)), "m%d" % i, annotations=ann("m", a, b, i))) for i, (a, b) in enumerate(mods)]
+    # ... nor of where each plasmid's file happens to start: in every other run each plasmid is written from an origin of
+    # its own (string rotation, not the library's), which puts the origin inside an overhang or a site of some of them
+    turn = (len(mods) + sum(map(ord, v[0] + v[1] + "".join(a + b for a, b in mods)))) % 2 == 1
+
+    def text(role, a, b, i):
+        t = _plasmid(enzyme, role, a, b)
+        if turn:
+            o = gen.rng_for("c03-origin", enzyme, role, a, b, i, len(mods)).randrange(len(t))
+            t = t[o:] + t[:o]
+        return t
+
+    if turn:
+        ctx.count("c03_runs_with_plasmids_at_other_origins")
+    vec = V(CircularRecord(Seq(text("V", v[0], v[1], -1)), "v", annotations=ann("v", v[0], v[1], len(mods))))
+    # modules are told apart as objects, not by what their records are called: in one run in four every module record carries
+    # the same id (plasmids built in a script and never named), in another one the ids pair up
+    idmode = (2 * len(mods) + sum(map(ord, v[1] + "".join(b for a, b in mods)))) % 4
+    mid = (lambda i: "unnamed") if idmode == 0 else (lambda i: "m%d" % (i // 2)) if idmode == 1 else (lambda i: "m%d" % i)
+    if idmode < 2 and len(mods) > 1:
+        ctx.count("c03_runs_with_shared_record_ids")
+    ents = [M(CircularRecord(Seq(text("M", a, b, i)), mid(i), annotations=ann("m", a, b, i))) for i, (a, b) in enumerate(mods)]
     if len(set(mods)) < len(mods) and (len(mods) + ord(v[0][0])) % 2 == 0:
         # the same plasmid supplied twice as two entities that wrap one and the same record object
         first = {}
